@@ -272,6 +272,40 @@ add_artificial_parameters(Matrix<PIP_Tree_Node::Row>& context,
   space_dim += num_art_params;
 }
 
+// Renumber the artificial parameters mentioned by the node constraints
+// `cs' and by the artificial parameters `aps' of a node, when `num_dims'
+// problem dimensions are added to a problem that had `old_space_dim' ones:
+// the artificial parameters are numbered after the problem dimensions.
+void
+shift_artificial_dimensions(Constraint_System& cs,
+                            PIP_Tree_Node::Artificial_Parameter_Sequence& aps,
+                            const dimension_type old_space_dim,
+                            const dimension_type num_dims) {
+  if (num_dims == 0) {
+    return;
+  }
+  const Variable first_art(old_space_dim);
+  if (cs.space_dimension() > old_space_dim) {
+    Constraint_System new_cs;
+    for (Constraint_System::const_iterator i = cs.begin(),
+           i_end = cs.end(); i != i_end; ++i) {
+      Constraint c(*i);
+      if (c.space_dimension() > old_space_dim) {
+        c.shift_space_dimensions(first_art, num_dims);
+      }
+      new_cs.insert(c);
+    }
+    using std::swap;
+    swap(cs, new_cs);
+  }
+  for (PIP_Tree_Node::Artificial_Parameter_Sequence::iterator
+         i = aps.begin(), i_end = aps.end(); i != i_end; ++i) {
+    if (i->space_dimension() > old_space_dim) {
+      i->shift_space_dimensions(first_art, num_dims);
+    }
+  }
+}
+
 /* Compares two columns lexicographically in a revised simplex tableau:
   - returns true if
     <CODE>
@@ -1401,6 +1435,10 @@ PIP_Decision_Node::update_tableau(
     const Constraint_Sequence& input_cs,
     const Variables_Set& parameters) {
 
+  shift_artificial_dimensions(constraints_, artificial_parameters,
+                              pip.internal_space_dim,
+                              pip.external_space_dim
+                              - pip.internal_space_dim);
   true_child->update_tableau(pip,
                              external_space_dim,
                              first_pending_constraint,
@@ -2447,6 +2485,11 @@ PIP_Solution_Node
                  const dimension_type first_pending_constraint,
                  const Constraint_Sequence& input_cs,
                  const Variables_Set& parameters) {
+
+  shift_artificial_dimensions(constraints_, artificial_parameters,
+                              pip.internal_space_dim,
+                              pip.external_space_dim
+                              - pip.internal_space_dim);
 
   // Make sure a parameter column exists, for the inhomogeneous term.
   if (tableau.t.num_columns() == 0) {
